@@ -6005,7 +6005,7 @@ static PyObject* sygv(PyObject *self, PyObject *args, PyObject *kwrds)
             PyErr_SetString(PyExc_TypeError, "A must be square");
             return NULL;
         }
-        if (A->nrows != n || A->ncols != n){
+        if (B->nrows != n || B->ncols != n){
             PyErr_SetString(PyExc_TypeError, "B must have the same "
                 "dimension as A");
             return NULL;
@@ -6132,7 +6132,7 @@ static PyObject* hegv(PyObject *self, PyObject *args, PyObject *kwrds)
             PyErr_SetString(PyExc_TypeError, "A must be square");
             return NULL;
         }
-        if (A->nrows != n || A->ncols != n){
+        if (B->nrows != n || B->ncols != n){
             PyErr_SetString(PyExc_TypeError, "B must have the same "
                 "dimension as A");
             return NULL;
